@@ -108,7 +108,8 @@ pub fn sheet_text(sheet: &Value, r: &mut Rng, v: &Vary) -> String {
         let decls = rule["decls"].as_array().unwrap();
         for (k, d) in decls.iter().enumerate() {
             if v.unknown_props && r.chance(1, 3) { s.push_str(*r.pick(&["margin: 0 auto; ", "font: 12px/1.5 \"A B\", serif; ", "-webkit-x: y; ", "width: calc(100% - 2px); ",
-                                                                         "font-family: \"Bob's Font\"; ", "quotes: '\"' '\"'; ", "x-y: \"a;b}c\"; ", "x-y: 'it''s'; ", "--x-y: { a ; b }; ", "x-y: [ { } ] ( ; ); "])); }
+                                                                         "font-family: \"Bob's Font\"; ", "quotes: '\"' '\"'; ", "x-y: \"a;b}c\"; ", "x-y: 'it''s'; ", "--x-y: { a ; b }; ", "x-y: [ { } ] ( ; ); ",
+                                                                         "background-image: url(data:image/png;base64,AAAA); ", "x-y: f(a;b) g( c ; d ); ", "src: local(x;y), url(\"a;b\"); "])); }
             s.push_str(&decl_text(d, r, v.on));
             let last = k + 1 == decls.len();
             if last { if v.double_semi { s.push_str(";;"); } else if !v.drop_semi { s.push(';'); } }
@@ -170,6 +171,8 @@ impl CssDoc {
         // an element written directly inside <table> / <tr>: the parser moves it in front of the table
         if structural && r.chance(1, 6) { let c = *r.pick(CLASSES); kids.push(N::ela(*r.pick(&["p", "div", "span"]), vec![("class", c.to_string())], vec![N::T(self.token())])); }
         for _ in 0..nk {
+            // (a comment between element children: no child for :nth-child, no text node either)
+            if !structural && r.chance(1, 6) { kids.push(N::Raw("<!-- c -->".into())); }
             kids.push(self.element(r, if structural { depth } else { depth + 1 }, name));
             if name != "ul" && !structural && r.chance(1, 3) { kids.push(N::T(format!(" {} ", self.token()))); }
         }
